@@ -1,14 +1,152 @@
 /-
-  ICG.Driver.Gen — line protocol of domain `gen` (stub: to be filled in by the domain's owner).
+  ICG.Driver.Gen — line protocol of domain `gen` (generators.py), stateless.  Every answer is
+  `V=<values of coalitions 0 .. 2^n-1>` unless noted; errors `err:<kind>`; unparsable `bad-op`.
+
+    gen factory <n> <owner> <weights> <id|one|sq>     (for `exp` the harness asks for `id` and applies exp itself)
+    gen predowner <last> <n>                          → next owner of `predictible_factory`
+    gen cheerpick <owner> <draws>                     → the accepted cheerleader, or `none`
+    gen cheer <n> <owner> <cheer>                     intended cheerleader construction
+    gen cheerkey <n> <owner> <cheer>                  registry key `factory_cheerleader` as the CURRENT code behaves
+    gen cheernext <n> <owner>
+    gen graph <n> <matrix row-major>
+    gen cycle <perm>                                  → `M=<polished matrix of the game> V=<values>`
+    gen additive <n> <weights>
+    gen xos <n> <k> <k·n weights> <normalize 0|1> <normalize_additive 0|1>
+    gen xs <n> <singles>
+    gen xsud <n> <players> <values>                   the `num_unit_demand` variant → `S=<singletons> V=…`
+    gen applyor <n> <values1> <values2>
+    gen oxs <n> <k> <k·n singles> <normalize 0|1>
+    gen kbudget <n> <k>
+    gen coverage <n> <mult> <indices>
 -/
+import ICG.Model.Generators
 import ICG.Driver.Proto
 namespace ICG.Driver.Gen
-open ICG ICG.Proto
+open ICG ICG.Proto ICG.Norm ICG.Gen
 
 abbrev State := Unit
 def init : State := ()
 
+def vecOf (l : List Rat) : Nat → Rat :=
+  let a := l.toArray
+  fun i => if h : i < a.size then a[i] else 0
+
+def matOf (n : Nat) (l : List Rat) : Nat → Nat → Rat :=
+  let a := l.toArray
+  fun r c => if h : r * n + c < a.size then a[r * n + c] else 0
+
+def chunks {β} (n : Nat) : Nat → List β → List (List β)
+  | 0, _ => []
+  | k + 1, l => l.take n :: chunks n k (l.drop n)
+
+def showVals (n : Nat) (v : Nat → Rat) : String := s!"V={showRats ((allCoalitions n).map v)}"
+def showIntVals (n : Nat) (v : Nat → Int) : String := s!"V={showRats ((allCoalitions n).map (fun c => (v c : Rat)))}"
+
+def answer (n : Nat) (r : Except Err (Nat → Rat)) : String :=
+  match r with
+  | .ok v => showVals n v
+  | .error e => toString e
+
+def answerInt (n : Nat) (r : Except Err (Nat → Int)) : String :=
+  match r with
+  | .ok v => showIntVals n v
+  | .error e => toString e
+
+def parseBool? (s : String) : Option Bool :=
+  if s = "1" then some true else if s = "0" then some false else none
+
 def handle (s : State) : List String → State × String
+  | ["factory", n, owner, ws, fn] =>
+    match n.toNat?, owner.toNat?, parseRats? ws with
+    | some n, some owner, some ws =>
+      if ws.length = n ∧ owner < n then
+        let w := vecOf ws
+        if fn = "id" then (s, showVals n (factory owner w fnId))
+        else if fn = "one" then (s, showVals n (factory owner w fnOne))
+        else if fn = "sq" then (s, showVals n (factory owner w fnSq))
+        else (s, "bad-op")
+      else (s, "bad-op")
+    | _, _, _ => (s, "bad-op")
+  | ["predowner", last, n] =>
+    match last.toNat?, n.toNat? with
+    | some last, some n => if n = 0 then (s, "bad-op") else (s, toString (predictibleOwner last n))
+    | _, _ => (s, "bad-op")
+  | ["cheerpick", owner, draws] =>
+    match owner.toNat?, parseNats? draws with
+    | some owner, some draws =>
+      (s, match cheerPick owner draws with | some c => toString c | none => "none")
+    | _, _ => (s, "bad-op")
+  | ["cheer", n, owner, cheer] =>
+    match n.toNat?, owner.toNat?, cheer.toNat? with
+    | some n, some owner, some cheer => (s, showIntVals n (factoryCheerleader owner cheer))
+    | _, _, _ => (s, "bad-op")
+  | ["cheerkey", n, owner, cheer] =>
+    match n.toNat?, owner.toNat?, cheer.toNat? with
+    | some n, some owner, some cheer => (s, answerInt n (factoryCheerleaderKey owner cheer))
+    | _, _, _ => (s, "bad-op")
+  | ["cheernext", n, owner] =>
+    match n.toNat?, owner.toNat? with
+    | some n, some owner => if n = 0 then (s, "bad-op") else (s, answerInt n (factoryCheerleaderNext n owner))
+    | _, _ => (s, "bad-op")
+  | ["graph", n, mat] =>
+    match n.toNat?, parseRats? mat with
+    | some n, some mat =>
+      if mat.length = n * n then (s, showVals n (graphGame n (matOf n mat))) else (s, "bad-op")
+    | _, _ => (s, "bad-op")
+  | ["cycle", perm] =>
+    match parseNats? perm with
+    | some perm =>
+      let n := perm.length
+      let m : Nat → Nat → Rat := (GraphGame.ofMatrix n (cycleMatrix perm)).m   -- as exposed by the game: polished
+      let ml := (List.range n).flatMap (fun r => (List.range n).map (fun c => m r c))
+      (s, s!"M={showRats ml} {showVals n (cycle perm)}")
+    | none => (s, "bad-op")
+  | ["additive", n, ws] =>
+    match n.toNat?, parseRats? ws with
+    | some n, some ws => if ws.length = n then (s, showVals n (additive (vecOf ws))) else (s, "bad-op")
+    | _, _ => (s, "bad-op")
+  | ["xos", n, k, ws, nrm, nadd] =>
+    match n.toNat?, k.toNat?, parseRats? ws, parseBool? nrm, parseBool? nadd with
+    | some n, some k, some ws, some nrm, some nadd =>
+      if ws.length = k * n then
+        (s, answer n (xos n ((chunks n k ws).map vecOf) nrm nadd))
+      else (s, "bad-op")
+    | _, _, _, _, _ => (s, "bad-op")
+  | ["xs", n, ss] =>
+    match n.toNat?, parseRats? ss with
+    | some n, some ss => if ss.length = n then (s, showVals n (xs (vecOf ss))) else (s, "bad-op")
+    | _, _ => (s, "bad-op")
+  | ["xsud", n, ps, xs_] =>
+    match n.toNat?, parseNats? ps, parseRats? xs_ with
+    | some n, some ps, some xv =>
+      if ps.length = xv.length ∧ ps.all (· < n) then
+        let sg : Nat → Rat := unitDemandSingles (ps.zip xv)
+        (s, s!"S={showRats ((List.range n).map sg)} {showVals n (xsUnitDemand (ps.zip xv))}")
+      else (s, "bad-op")
+    | _, _, _ => (s, "bad-op")
+  | ["applyor", n, a, b] =>
+    match n.toNat?, parseRats? a, parseRats? b with
+    | some n, some a, some b =>
+      if a.length = 2 ^ n ∧ b.length = 2 ^ n then
+        let o := applyOrFn (vecOf a) (vecOf b) n      -- `applyOr … = o.f`
+        (s, showVals n o.f)
+      else (s, "bad-op")
+    | _, _, _ => (s, "bad-op")
+  | ["oxs", n, k, ss, nrm] =>
+    match n.toNat?, k.toNat?, parseRats? ss, parseBool? nrm with
+    | some n, some k, some ss, some nrm =>
+      if ss.length = k * n then
+        (s, answer n (oxsOfSingles n ((chunks n k ss).map vecOf) nrm))
+      else (s, "bad-op")
+    | _, _, _, _ => (s, "bad-op")
+  | ["kbudget", n, k] =>
+    match n.toNat?, k.toNat? with
+    | some n, some k => (s, showIntVals n (kBudget k))
+    | _, _ => (s, "bad-op")
+  | ["coverage", n, mult, idx] =>
+    match n.toNat?, mult.toNat?, parseNats? idx with
+    | some n, some mult, some idx => (s, answerInt n (coverage n mult idx))
+    | _, _, _ => (s, "bad-op")
   | _ => (s, "bad-op")
 
 end ICG.Driver.Gen
